@@ -191,6 +191,23 @@ func runC10Enum(r *simkit.Run, c Cfg) {
 	if err != nil || !msgEqual(full, m) {
 		r.Violate("c10.roundtrip", "CBOR round trip of message #%d: err=%v", c.Case, err)
 	}
+	// decoding into a message value that was used before gives the same
+	// result as decoding into a fresh one, whatever it held
+	for k := 0; k < c10Cases(c.Tier); k++ {
+		other := c10BaseMessage(k)
+		var ob bytes.Buffer
+		if other.MarshalCBOR(&ob) != nil {
+			continue
+		}
+		var used message.Message
+		if used.UnmarshalCBOR(bytes.NewReader(ob.Bytes())) != nil {
+			continue
+		}
+		if err := used.UnmarshalCBOR(bytes.NewReader(enc)); err != nil || !msgEqual(used, m) {
+			r.Violate("c10.roundtrip", "message #%d decoded into a value that had held message #%d differs from what was encoded (err=%v; original peer %q vs %q, %d vs %d addresses, %d vs %d bytes of extra data)", c.Case, k, err, used.OrigPeer, m.OrigPeer, len(used.Addrs), len(m.Addrs), len(used.ExtraData), len(m.ExtraData))
+			break
+		}
+	}
 	// JSON round trip
 	jb := must(json.Marshal(m))
 	var jm message.Message
@@ -400,6 +417,10 @@ func runC10(r *simkit.Run, c Cfg) {
 			}
 			if tp.Chance(1, 3, "msgExtra") {
 				m.ExtraData = tp.Bytes(1+tp.Choose(64, "mextralen"), "mextra")
+				if tp.Chance(1, 8, "mextrabig") {
+					// large extra data, up to just below the 2 MiB field cap
+					m.ExtraData = bytes.Repeat(m.ExtraData, []int{4096, 65536, 2<<20 - 1}[tp.Choose(3, "mextrasize")]/len(m.ExtraData))
+				}
 			}
 			if tp.Chance(1, 3, "orig") {
 				m.OrigPeer = Identity("V2").ID.String()
